@@ -8,18 +8,40 @@ namespace FatVerif.Spec
 
 /-! ## Paths on raw images -/
 
-/-- upper-casing used for locating objects on raw images: ASCII and Latin-1 (the library's full Unicode table is not
-    available to the oracles) -/
-def latin1Upper (c : Char) : List Char :=
+/-- Best-effort simple upper-casing used for locating objects on raw images and for the C01 spec tree when the library
+    is built with its `unicode` feature: ASCII, Latin-1, Latin Extended-A, the Ǆ group, Greek, Cyrillic. The library's
+    full table (`char::to_uppercase`) is not available to the oracles (`OpView` does not carry it). -/
+def simpleUpper (c : Char) : List Char :=
   let n := c.toNat
-  if 0xE0 ≤ n ∧ n ≤ 0xFE ∧ n ≠ 0xF7 then [Char.ofNat (n - 0x20)] else [c.toUpper]
+  let one (k : Nat) : List Char := [Char.ofNat k]
+  if n < 0x80 then [c.toUpper]
+  else if n = 0xDF then ['S', 'S']
+  else if n = 0xFF then one 0x178
+  else if 0xE0 ≤ n ∧ n ≤ 0xFE ∧ n ≠ 0xF7 then one (n - 0x20)
+  else if (0x100 ≤ n ∧ n ≤ 0x137) ∨ (0x14A ≤ n ∧ n ≤ 0x177) then (if n % 2 = 1 then one (n - 1) else [c])
+  else if (0x139 ≤ n ∧ n ≤ 0x148) ∨ (0x179 ≤ n ∧ n ≤ 0x17E) then (if n % 2 = 0 then one (n - 1) else [c])
+  else if n = 0x17F then ['S']
+  else if 0x1C4 ≤ n ∧ n ≤ 0x1CC then one (0x1C4 + (n - 0x1C4) / 3 * 3)
+  else if n = 0x3C2 then one 0x3A3
+  else if (0x3B1 ≤ n ∧ n ≤ 0x3C1) ∨ (0x3C3 ≤ n ∧ n ≤ 0x3CB) then one (n - 0x20)
+  else if n = 0x3AC then one 0x386
+  else if 0x3AD ≤ n ∧ n ≤ 0x3AF then one (n - 0x25)
+  else if n = 0x3CC then one 0x38C
+  else if n = 0x3CD ∨ n = 0x3CE then one (n - 0x3F)
+  else if 0x430 ≤ n ∧ n ≤ 0x44F then one (n - 0x20)
+  else if 0x450 ≤ n ∧ n ≤ 0x45F then one (n - 0x50)
+  else [c]
 
-def asciiFold (s : String) : String := foldName latin1Upper s
+def asciiFold (s : String) : String := foldName asciiUpper s
+def simpleFold (s : String) : String := foldName simpleUpper s
 
-/-- entry of a parsed directory by long or short name, ignoring ASCII case -/
+/-- entry of a parsed directory by long or short name, ignoring case -/
 def findMeta (pd : ParsedDir) (q : String) : Option EntryMeta :=
-  let fq := asciiFold q
-  pd.entries.find? fun e => asciiFold e.name == fq || asciiFold e.shortName == fq
+  -- exact, then ASCII case-insensitive, then best-effort Unicode case-insensitive
+  let via (f : String → String) : Option EntryMeta :=
+    let fq := f q
+    pd.entries.find? fun e => f e.name == fq || f e.shortName == fq
+  (via id).orElse fun _ => (via asciiFold).orElse fun _ => via simpleFold
 
 /-- lexical resolution of `.` / `..` / empty components against a canonical directory path -/
 def lexPath : (cur : List String) → (comps : List String) → List String
@@ -92,7 +114,7 @@ def dealiasLoop (g : Geom) (img : Img) : (cur : Option (List String)) → (comps
           match findMeta pd c with
           | none => c :: rest
           | some e =>
-            let c' := if asciiFold e.name == asciiFold c then c else e.name
+            let c' := if simpleFold e.name == simpleFold c then c else e.name
             c' :: dealiasLoop g img (some (cur ++ [e.name])) rest
 
 def dealias (g : Geom) (img : Img) (cwd : List String) (path : String) : String :=
